@@ -11,7 +11,8 @@ VARIANTS = ['asan']
 FORMS = [('#x', True), ('//x', True), ('/*x*/', False), ('/* multi\n line */', False), ('#', True), ('//', True), ('/**/', False),
          ('#### hh', True), ('   ', False), ('\n\n', False), ('\t', False), ('/* "q" \'s\' ${v} { } = , */', False), ('# "unbalanced', True), ('/***/', False),
          ('# ' + 'long comment ' * 4, True), ('/* ' + 'block comment text ' * 5 + '*/', False), ('//' + 'x' * 33, True),
-         ('/* a * b */', False), ('/** doc */', False), ('/*** x ***/', False), ('/* 2*3 / 4 */', False), ('/* star*\n *next */', False)]
+         ('/* a * b */', False), ('/** doc */', False), ('/*** x ***/', False), ('/* 2*3 / 4 */', False), ('/* star*\n *next */', False),
+         ('#!glued to the token before it', True)]      # ('#!' = written without the blank in front: a '#' ends any token)
 ANN = [('# hello world', True, 'hello world'), ('// slashes', True, 'slashes'), ('/* c style */', False, 'c style'),
        ('/*  multi\n   line  */', False, 'multi\n   line'), ('####   hashes  ', True, 'hashes'), ('////deep', True, 'deep'), ('/*tight*/', False, 'tight'),
        ('#/etc/app conf', True, '/etc/app conf'), ('//#42 hash', True, '#42 hash'), ('# open /* only', True, 'open /* only'),
@@ -41,6 +42,8 @@ def insert(toks, k, form):
     txt, nl = form
     left = ' '.join(t[1] for t in toks[:k])
     right = ' '.join(t[1] for t in toks[k:])
+    if txt.startswith('#!'):
+        return left + txt + '\n' + right
     return left + ' ' + txt + ('\n' if nl else ' ') + right + '\n'
 
 
